@@ -543,8 +543,11 @@ def added (s : St) (e : Ev) (i : Nat) : Nat :=
   | .restart => cnt (filesRows s.files) i
   | _ => 0
 
-theorem stepUp_cntLS (c : Cfg) (s : St) (e : Ev) (i : Nat) : cntLS (stepUp c s e) i ≤ cntLS s i + added s e i := by
+theorem stepUp_cntLS (c : Cfg) (s : St) (e : Ev) (i : Nat) (hne : e.injects = false) :
+    cntLS (stepUp c s e) i ≤ cntLS s i + added s e i := by
   cases e with
+  | tickF n => simp [Ev.injects] at hne
+  | restartF n => exact Nat.le_add_right _ _
   | write k rows => exact write_cntLS c s k rows i
   | writeT d k rows => exact writeP_cntLS c s _ k rows i
   | stall => exact Nat.le_refl _
@@ -573,18 +576,20 @@ theorem stepUp_cntLS (c : Cfg) (s : St) (e : Ev) (i : Nat) : cntLS (stepUp c s e
   | mode m => exact Nat.le_refl _
   | restart => exact Nat.le_add_right _ _
 
-theorem step_cntLS (c : Cfg) (s : St) (e : Ev) (obs : List Nat) (i : Nat) :
+theorem step_cntLS (c : Cfg) (s : St) (e : Ev) (obs : List Nat) (i : Nat) (hne : e.injects = false) :
     cntLS (step c s e obs) i ≤ cntLS s i + added s e i := by
   have hb : ∀ d, cntLS (begin s obs d) i = cntLS s i := fun d => (begin_mem s obs d).cntLS i
-  have up : ∀ e', cntLS (if s.up then stepUp c (begin s obs 1) e' else begin s obs 0) i ≤ cntLS s i + added s e' i := by
-    intro e'
+  have up : ∀ e', e'.injects = false → cntLS (if s.up then stepUp c (begin s obs 1) e' else begin s obs 0) i ≤ cntLS s i + added s e' i := by
+    intro e' he'
     split
-    · have := stepUp_cntLS c (begin s obs 1) e' i
+    · have := stepUp_cntLS c (begin s obs 1) e' i he'
       have h1 := hb 1
       have h2 : added (begin s obs 1) e' i = added s e' i := by cases e' <;> rfl
       omega
     · have := hb 0; omega
   cases e with
+  | tickF n => simp [Ev.injects] at hne
+  | restartF n => simp [Ev.injects] at hne
   | adv d => exact Nat.le_of_eq (hb d)
   | mode m =>
     show cntLS { begin s obs 1 with failAfter := m, stalled := false } i ≤ cntLS s i + 0
@@ -603,16 +608,16 @@ theorem step_cntLS (c : Cfg) (s : St) (e : Ev) (obs : List Nat) (i : Nat) :
       unfold phi at this
       rw [begin_files] at this
       omega
-  | write k rows => exact up _
-  | writeT d k rows => exact up _
-  | wpause => exact up _
-  | wresume => exact up _
-  | hold => exact up _
-  | unhold => exact up _
-  | step1 => exact up _
-  | ageFlush => exact up _
-  | tick => exact up _
-  | shutdown d => exact up _
-  | crash => exact up _
+  | write k rows => exact up _ rfl
+  | writeT d k rows => exact up _ rfl
+  | wpause => exact up _ rfl
+  | wresume => exact up _ rfl
+  | hold => exact up _ rfl
+  | unhold => exact up _ rfl
+  | step1 => exact up _ rfl
+  | ageFlush => exact up _ rfl
+  | tick => exact up _ rfl
+  | shutdown d => exact up _ rfl
+  | crash => exact up _ rfl
 
 end Arc.C07
